@@ -160,8 +160,8 @@ func genTmpl(t *rapid.T) tmpl {
 	case 2:
 		x.prepend = rapid.SampledFrom([]string{"/prefix", "/p-1", "/~p"}).Draw(t, "prepend")
 	case 3:
-		x.strip = rapid.SampledFrom([]string{"/stripme", "/s"}).Draw(t, "strip")
-		x.prepend = rapid.SampledFrom([]string{"/prefix", "/p_2"}).Draw(t, "prepend")
+		x.strip = rapid.SampledFrom([]string{"/stripme", "/s", "/stripme/", "/old/"}).Draw(t, "strip")
+		x.prepend = rapid.SampledFrom([]string{"/prefix", "/p_2", "/prefix/", "/v2/"}).Draw(t, "prepend")
 		routePath = x.strip
 	}
 	// a route whose own path is shorter than what it strips: the strip applies only to
@@ -199,7 +199,7 @@ func genReq(t *rapid.T, x tmpl) reqSpec {
 	}
 	r := reqSpec{host: host, rawPath: genRawPath(t, start)}
 	if rapid.IntRange(0, 2).Draw(t, "hasq") == 0 {
-		r.query = rapid.SampledFrom([]string{"a=1", "a=1&b=%20x", "q", "x=%2F"}).Draw(t, "query")
+		r.query = rapid.SampledFrom([]string{"a=1", "a=1&b=%20x", "q", "x=%2F", "from=2024;to=2025", "a;b", "q=100%", "id=7;jsessionid=A&x=1", "%zz=1"}).Draw(t, "query")
 	}
 	// any request that matches a redirect route is redirected, a websocket handshake included
 	if rapid.IntRange(0, 5).Draw(t, "upgrade") == 0 {
